@@ -2567,9 +2567,14 @@ impl<E: Effect> Executor<E> {
             .remove(&pid)
             .ok_or(Error::InvalidArgument("Process not found".to_string()))?;
 
-        // The message clone enters the select_state.receiving slot.
+        // The message clone enters the select_state.receiving slot. A message still held there for
+        // another receive source (this one's message arrived while that filter ran) is released:
+        // it stays in the mailbox and that source will look at it again.
         self.retain(&message);
         if let Some(state) = &mut proc.select_state {
+            if let Some((_, held)) = state.receiving.take() {
+                self.release(&held);
+            }
             state.receiving = Some((receive_idx, message.clone()));
             state.cursors[receive_idx] = msg_idx;
         }
